@@ -73,3 +73,8 @@ clean:
 
 .SECONDARY:
 -include $(shell find $(B) -name '*.d' 2>/dev/null)
+
+# what MANIFEST.setup_cmd builds: the engine and the per-mode dispenso archives (checks build their own harnesses)
+.PHONY: setup
+setup: engine $(foreach m,$(MODES),$(B)/$(m)/libdispenso_mc.a $(B)/$(m)/mc_harness_rt.o) $(B)/seqlib/libdispenso.a $(B)/plain/selftest $(B)/asan/selftest $(B)/tsan/selftest
+	python3 bin/selftest
